@@ -440,6 +440,12 @@ pub fn account(case: &CorruptCase, run: &CorruptRun, st: &mut Stats) {
     let first = run.recs.first();
     let opened = matches!(first.map(|r| &r.outcome), Some(Outcome::Ok));
     st.probe("probe.opened_after_faults", opened && !case.faults.is_empty());
+    // feeds the runner's reach guard: a campaign in which (almost) nothing opens any more
+    // explores only the first box header of every image
+    st.inc("reach.sessions");
+    if opened {
+        st.inc("reach.sessions_opened");
+    }
     let class = match first.map(|r| &r.outcome) {
         Some(Outcome::Ok) => "opened".to_string(),
         Some(Outcome::Err(e)) => format!("open_err:{e}"),
